@@ -30,6 +30,48 @@ def traceRefused (o : TraceOpts) (hasMap hasNull hasDataless : Bool) : Option St
   else if hasDataless && !o.enumsWithoutDataAsStrings && !o.allowNullFields then some "enum-without-data"
   else none
 
+/-! ### a traced schema respects the options (each option decides exactly its aspect) -/
+
+def strTy (o : TraceOpts) : DataType := if o.stringsAsLargeUtf8 then .largeUtf8 else .utf8
+
+mutual
+/-- `none` when every node of the data type is one the options allow, else the name of the violated option -/
+def violatedOption (o : TraceOpts) : DataType → Option String
+  | .list (.mk _ c _ _) => if o.sequenceAsLargeList then some "sequence_as_large_list" else violatedOption o c
+  | .largeList (.mk _ c _ _) => if !o.sequenceAsLargeList then some "sequence_as_large_list" else violatedOption o c
+  | .utf8 => if o.stringsAsLargeUtf8 then some "strings_as_large_utf8"
+             else if o.stringDictionaryEncoding then some "string_dictionary_encoding" else none
+  | .largeUtf8 => if !o.stringsAsLargeUtf8 then some "strings_as_large_utf8"
+                  else if o.stringDictionaryEncoding then some "string_dictionary_encoding" else none
+  | .dictionary k v =>
+    if !(o.stringDictionaryEncoding || o.enumsWithoutDataAsStrings) then some "string_dictionary_encoding"
+    else if k != .uint32 then some "dictionary-key"
+    else if v != strTy o then some "strings_as_large_utf8" else none
+  | .null => if o.allowNullFields then none else some "allow_null_fields"
+  | .map (.mk _ c _ _) _ => if o.mapAsStruct then some "map_as_struct" else violatedOption o c
+  | .struct fs => violatedOptionFields o fs
+  | .union fs _ => violatedOptionUFields o fs
+  | .fixedSizeList (.mk _ c _ _) _ => violatedOption o c
+  | _ => none
+
+def violatedOptionFields (o : TraceOpts) : Fields → Option String
+  | .nil => none
+  | .cons (.mk _ c _ _) rest =>
+    match violatedOption o c with
+    | some w => some w
+    | none => violatedOptionFields o rest
+
+def violatedOptionUFields (o : TraceOpts) : UFields → Option String
+  | .nil => none
+  | .cons _ (.mk _ c _ _) rest =>
+    match violatedOption o c with
+    | some w => some w
+    | none => violatedOptionUFields o rest
+end
+
+def violatedOptionRoot (o : TraceOpts) (fields : List Field) : Option String :=
+  violatedOptionFields o (Fields.ofList fields)
+
 def isUnion : DataType → Bool
   | .union _ _ => true
   | _ => false
@@ -110,6 +152,83 @@ def noneAtUnionEntries (kdt vdt : DataType) : SEntries → Bool
   | .nil => false
   | .cons k v rest => noneAtUnion kdt k || noneAtUnion vdt v || noneAtUnionEntries kdt vdt rest
 end
+
+/-! ### struct fields are traced in declaration order -/
+
+def Fields.names : Fields → List String
+  | .nil => []
+  | .cons (.mk n _ _ _) rest => n :: Fields.names rest
+
+def SFields.keys : SFields → List String
+  | .nil => []
+  | .cons k _ _ rest => k :: SFields.keys rest
+
+/-- `xs` occurs in `ys` in order (fields left out by `skip_serializing_if` may be missing) -/
+def isSubseq : List String → List String → Bool
+  | [], _ => true
+  | _ :: _, [] => false
+  | x :: xs, y :: ys => if x == y then isSubseq xs ys else isSubseq (x :: xs) ys
+
+mutual
+/-- every record presented with `serialize_struct` lists its fields in the order of the schema's struct -/
+def fieldOrderOk (dt : DataType) : SVal → Bool
+  | .some v => fieldOrderOk dt v
+  | .newtypeStruct _ v => fieldOrderOk dt v
+  | .seq xs | .tuple xs | .tupleStruct _ xs =>
+    match dt with
+    | .list (.mk _ c _ _) | .largeList (.mk _ c _ _) | .fixedSizeList (.mk _ c _ _) _ => fieldOrderOkAll c xs
+    | .struct fs => fieldOrderOkPos fs xs
+    | _ => true
+  | .record _ fields =>
+    match dt with
+    | .struct fs => isSubseq (SFields.keys fields) (Fields.names fs) && fieldOrderOkNamed fs fields
+    | _ => true
+  | .map es =>
+    match dt with
+    | .map (.mk _ (.struct (.cons (.mk _ kdt _ _) (.cons (.mk _ vdt _ _) _))) _ _) _ => fieldOrderOkEntries kdt vdt es
+    | _ => true
+  | .newtypeVariant _ i _ v =>
+    match dt with
+    | .union fs _ => match UFields.dtAt fs i with
+      | some c => fieldOrderOk c v
+      | none => true
+    | _ => true
+  | .tupleVariant _ i _ xs =>
+    match dt with
+    | .union fs _ => match UFields.dtAt fs i with
+      | some (.struct cfs) => fieldOrderOkPos cfs xs
+      | _ => true
+    | _ => true
+  | .structVariant _ i _ fields =>
+    match dt with
+    | .union fs _ => match UFields.dtAt fs i with
+      | some (.struct cfs) => isSubseq (SFields.keys fields) (Fields.names cfs) && fieldOrderOkNamed cfs fields
+      | _ => true
+    | _ => true
+  | _ => true
+
+def fieldOrderOkAll (c : DataType) : SVals → Bool
+  | .nil => true
+  | .cons x rest => fieldOrderOk c x && fieldOrderOkAll c rest
+
+def fieldOrderOkPos : Fields → SVals → Bool
+  | .cons (.mk _ c _ _) frest, .cons x rest => fieldOrderOk c x && fieldOrderOkPos frest rest
+  | _, _ => true
+
+def fieldOrderOkNamed (fs : Fields) : SFields → Bool
+  | .nil => true
+  | .cons key _ x rest =>
+    (match Fields.dtOf fs key with
+     | some c => fieldOrderOk c x
+     | none => true) && fieldOrderOkNamed fs rest
+
+def fieldOrderOkEntries (kdt vdt : DataType) : SEntries → Bool
+  | .nil => true
+  | .cons k v rest => fieldOrderOk kdt k && fieldOrderOk vdt v && fieldOrderOkEntries kdt vdt rest
+end
+
+def fieldOrderOkRow (fields : List Field) (row : SVal) : Bool :=
+  fieldOrderOk (.struct (Fields.ofList fields)) row
 
 /-- a whole record against the root schema -/
 def noneAtUnionRow (fields : List Field) (row : SVal) : Bool :=
